@@ -4,7 +4,8 @@ PROPS["C13"] = dict(
     rule="case = idle timeout 5/20/50 ms, pool limit 1..10, warm or cold pool, and a script over {far future 60..600 s (cancelled at the end), near "
          "1..30 ms, burst of 1..60 prompt callbacks due together, cancel the head of the queue, idle gap > 2 idle timeouts, sleeps}, steps issued "
          "inline or from other goroutines; the patterns unit plays every ordered pair of the six patterns for each idle timeout and pool limits "
-         "1,10 (1,2,5,10 thorough). Checked: every future that was not cancelled starts within 3 s of call-return + delay; when nothing is "
+         "1,10 (1,2,5,10 thorough). The exitrace unit schedules a prompt callback, waits until about the (calibrated) moment the idle worker leaves, "
+         "schedules the next one, thousands of times with the arrival offset swept across the exit moment. Checked: every future that was not cancelled starts within 3 s of call-return + delay; when nothing is "
          "pending the package reaches zero worker goroutines within 3*idle + 5 s; a Call after that fires within 3 s. non-trivial = a near future "
          "was scheduled while only far ones were pending, or a burst exceeded the pool limit, or a Call hit a completely wound-down pool; "
          "distinct = hash of the case; classes max_lateness:* give the observed lateness histogram",
@@ -13,6 +14,7 @@ PROPS["C13"] = dict(
                  "idle timeout / pool limit set and worker count read through the overlay accessors VerifReset/VerifWatchers; the default 30 s idle timeout is not exercised in the quick tier"],
     units=[
         dict(name="patterns", run="^TestC13Patterns$", shards=(6, 16), timeout=(300, 1800), shrinktime="20s"),
+        dict(name="exitrace", run="^TestC13ExitRace$", shards=(2, 16), timeout=(300, 1800)),
         dict(name="rapid", run="^TestC13Rapid$", checks=(30, 400), shards=(6, 16), timeout=(300, 1800), shrinktime="20s"),
     ],
 )
